@@ -143,7 +143,8 @@ def execute(plan, want_refs=True, timeout=120.0):
         stats["status"][r["status"]] = stats["status"].get(r["status"], 0) + 1
         it = r.get("interrupt")
         if it and it.get("at"):
-            stats["faults_fired"]["interrupt"] = stats["faults_fired"].get("interrupt", 0) + 1
+            fk = "interrupt" if it.get("exc", "interrupt") == "interrupt" else "inject-" + it["exc"]
+            stats["faults_fired"][fk] = stats["faults_fired"].get(fk, 0) + 1
             site = f"{it['at'][0]}:{it['at'][1]}"
             stats["interrupt_sites"][site] = stats["interrupt_sites"].get(site, 0) + 1
         f = r.get("io_fault")
